@@ -64,22 +64,18 @@ Inductive pc :=
 
 Inductive fcell := FPending | FVal (v : Z) | FExn.
 
-Record task := Task {
-  tfid : Z; tasync : bool;
-  tmtx : option nat;            (* mutex of the guarded<packaged_task> inside the runner *)
-  tfut : fcell;                 (* shared state of the packaged_task / promise *)
-  (* ghost *)
-  tsub : nat; tinv : nat; tret : option nat; texec : option nat; tcount : nat; trunner : option nat;
-  tfsets : nat; tpre : Z }.
-
-Definition t_set_mtx (x : task) m :=
-  Task (tfid x) (tasync x) m (tfut x) (tsub x) (tinv x) (tret x) (texec x) (tcount x) (trunner x) (tfsets x) (tpre x).
-Definition t_set_fut (x : task) f :=
-  Task (tfid x) (tasync x) (tmtx x) f (tsub x) (tinv x) (tret x) (texec x) (tcount x) (trunner x) (S (tfsets x)) (tpre x).
-Definition t_set_ret (x : task) (n : nat) :=
-  Task (tfid x) (tasync x) (tmtx x) (tfut x) (tsub x) (tinv x) (Some n) (texec x) (tcount x) (trunner x) (tfsets x) (tpre x).
-Definition t_set_exec (x : task) (t n : nat) (p : Z) :=
-  Task (tfid x) (tasync x) (tmtx x) (tfut x) (tsub x) (tinv x) (tret x) (Some n) (S (tcount x)) (Some t) (tfsets x) p.
+(* ghost state: stamps taken from a clock that every step advances, counters, the log of completed functors *)
+Record ghost := Ghost {
+  clock : nat; donelog : list nat;
+  tsub : nat -> nat;                 (* submitting thread *)
+  tinv : nat -> nat;                 (* stamp of the invocation of the submit call *)
+  tpush : nat -> option nat;         (* stamp of the push_back (queued path) *)
+  tret : nat -> option nat;          (* stamp of the return of the submit call *)
+  texec : nat -> option nat;         (* stamp of the functor invocation *)
+  tcount : nat -> nat;               (* number of invocations of the functor *)
+  trunner : nat -> option nat;       (* thread that invoked it *)
+  tfsets : nat -> nat;               (* number of times the future cell was set *)
+  tpre : nat -> Z }.                 (* payload value when the functor was invoked *)
 
 Record loc := Loc { prog : list op; at_ : pc; hand : list (Z * bool); futs : list (Z * nat) }.
 
@@ -90,25 +86,36 @@ Record glob := Glob {
   lmtx : option nat; queue : list nat;                 (* m_pendingList: its mutex, the queued task ids *)
   pay : Z; rdrs : nat; dirty : bool; faulted : bool;   (* m_obj (a VPay) *)
   calls : Z;                                           (* number of user-code invocations so far *)
-  ntasks : nat; tasks : nat -> task;
-  (* ghost *)
-  clock : nat; donelog : list nat }.
+  ntasks : nat; tfid : nat -> Z; tasync : nat -> bool; (* the submitted functors *)
+  tmtx : nat -> option nat;                            (* mutex of the guarded<packaged_task> inside each runner *)
+  tfut : nat -> fcell;                                 (* shared state of each packaged_task / promise *)
+  gh : ghost }.
 
 Definition O_MTX := 1. Definition O_FLAG := 2. Definition O_LIST := 3. Definition O_PAY := 4.
 Definition O_TASK (tk : nat) : Z := 10 + Z.of_nat tk.
 
-Definition set_owner g x := Glob (mk g) (throws g) x (nsh g) (flag g) (lmtx g) (queue g) (pay g) (rdrs g) (dirty g) (faulted g) (calls g) (ntasks g) (tasks g) (clock g) (donelog g).
-Definition set_nsh g x := Glob (mk g) (throws g) (owner g) x (flag g) (lmtx g) (queue g) (pay g) (rdrs g) (dirty g) (faulted g) (calls g) (ntasks g) (tasks g) (clock g) (donelog g).
-Definition set_flag g x := Glob (mk g) (throws g) (owner g) (nsh g) x (lmtx g) (queue g) (pay g) (rdrs g) (dirty g) (faulted g) (calls g) (ntasks g) (tasks g) (clock g) (donelog g).
-Definition set_list g m q := Glob (mk g) (throws g) (owner g) (nsh g) (flag g) m q (pay g) (rdrs g) (dirty g) (faulted g) (calls g) (ntasks g) (tasks g) (clock g) (donelog g).
-Definition set_pay g p r d f := Glob (mk g) (throws g) (owner g) (nsh g) (flag g) (lmtx g) (queue g) p r d f (calls g) (ntasks g) (tasks g) (clock g) (donelog g).
-Definition set_calls g x := Glob (mk g) (throws g) (owner g) (nsh g) (flag g) (lmtx g) (queue g) (pay g) (rdrs g) (dirty g) (faulted g) x (ntasks g) (tasks g) (clock g) (donelog g).
-Definition set_tasks g n f := Glob (mk g) (throws g) (owner g) (nsh g) (flag g) (lmtx g) (queue g) (pay g) (rdrs g) (dirty g) (faulted g) (calls g) n f (clock g) (donelog g).
-Definition set_done g x := Glob (mk g) (throws g) (owner g) (nsh g) (flag g) (lmtx g) (queue g) (pay g) (rdrs g) (dirty g) (faulted g) (calls g) (ntasks g) (tasks g) (clock g) x.
-Definition tick g := Glob (mk g) (throws g) (owner g) (nsh g) (flag g) (lmtx g) (queue g) (pay g) (rdrs g) (dirty g) (faulted g) (calls g) (ntasks g) (tasks g) (S (clock g)) (donelog g).
-
 Definition fupd {A} (f : nat -> A) (k : nat) (v : A) : nat -> A := fun x => if Nat.eqb x k then v else f x.
-Definition upd_task g tk (f : task -> task) := set_tasks g (ntasks g) (fupd (tasks g) tk (f (tasks g tk))).
+
+Definition set_owner g x := Glob (mk g) (throws g) x (nsh g) (flag g) (lmtx g) (queue g) (pay g) (rdrs g) (dirty g) (faulted g) (calls g) (ntasks g) (tfid g) (tasync g) (tmtx g) (tfut g) (gh g).
+Definition set_nsh g x := Glob (mk g) (throws g) (owner g) x (flag g) (lmtx g) (queue g) (pay g) (rdrs g) (dirty g) (faulted g) (calls g) (ntasks g) (tfid g) (tasync g) (tmtx g) (tfut g) (gh g).
+Definition set_flag g x := Glob (mk g) (throws g) (owner g) (nsh g) x (lmtx g) (queue g) (pay g) (rdrs g) (dirty g) (faulted g) (calls g) (ntasks g) (tfid g) (tasync g) (tmtx g) (tfut g) (gh g).
+Definition set_list g m q := Glob (mk g) (throws g) (owner g) (nsh g) (flag g) m q (pay g) (rdrs g) (dirty g) (faulted g) (calls g) (ntasks g) (tfid g) (tasync g) (tmtx g) (tfut g) (gh g).
+Definition set_pay g p r d f := Glob (mk g) (throws g) (owner g) (nsh g) (flag g) (lmtx g) (queue g) p r d f (calls g) (ntasks g) (tfid g) (tasync g) (tmtx g) (tfut g) (gh g).
+Definition set_calls g x := Glob (mk g) (throws g) (owner g) (nsh g) (flag g) (lmtx g) (queue g) (pay g) (rdrs g) (dirty g) (faulted g) x (ntasks g) (tfid g) (tasync g) (tmtx g) (tfut g) (gh g).
+Definition set_tmtx g tk m := Glob (mk g) (throws g) (owner g) (nsh g) (flag g) (lmtx g) (queue g) (pay g) (rdrs g) (dirty g) (faulted g) (calls g) (ntasks g) (tfid g) (tasync g) (fupd (tmtx g) tk m) (tfut g) (gh g).
+Definition set_tfut g tk f := Glob (mk g) (throws g) (owner g) (nsh g) (flag g) (lmtx g) (queue g) (pay g) (rdrs g) (dirty g) (faulted g) (calls g) (ntasks g) (tfid g) (tasync g) (tmtx g) (fupd (tfut g) tk f) (gh g).
+Definition set_gh g x := Glob (mk g) (throws g) (owner g) (nsh g) (flag g) (lmtx g) (queue g) (pay g) (rdrs g) (dirty g) (faulted g) (calls g) (ntasks g) (tfid g) (tasync g) (tmtx g) (tfut g) x.
+(* a fresh task id: its mutex is free and its future cell pending (never touched before) *)
+Definition add_task g fid async := Glob (mk g) (throws g) (owner g) (nsh g) (flag g) (lmtx g) (queue g) (pay g) (rdrs g) (dirty g) (faulted g) (calls g) (S (ntasks g)) (fupd (tfid g) (ntasks g) fid) (fupd (tasync g) (ntasks g) async) (tmtx g) (tfut g) (gh g).
+Definition h_tick h  := Ghost (S (clock h)) (donelog h) (tsub h) (tinv h) (tpush h) (tret h) (texec h) (tcount h) (trunner h) (tfsets h) (tpre h).
+Definition h_done h tk := Ghost (clock h) (donelog h ++ [tk]) (tsub h) (tinv h) (tpush h) (tret h) (texec h) (tcount h) (trunner h) (tfsets h) (tpre h).
+Definition h_new h tk t := Ghost (clock h) (donelog h) (fupd (tsub h) tk t) (fupd (tinv h) tk (clock h)) (fupd (tpush h) tk None) (fupd (tret h) tk None) (fupd (texec h) tk None) (fupd (tcount h) tk O) (fupd (trunner h) tk None) (fupd (tfsets h) tk O) (tpre h).
+Definition h_push h tk := Ghost (clock h) (donelog h) (tsub h) (tinv h) (fupd (tpush h) tk (Some (clock h))) (tret h) (texec h) (tcount h) (trunner h) (tfsets h) (tpre h).
+Definition h_ret h tk := Ghost (clock h) (donelog h) (tsub h) (tinv h) (tpush h) (fupd (tret h) tk (Some (clock h))) (texec h) (tcount h) (trunner h) (tfsets h) (tpre h).
+Definition h_exec h tk t p := Ghost (clock h) (donelog h) (tsub h) (tinv h) (tpush h) (tret h) (fupd (texec h) tk (Some (clock h))) (fupd (tcount h) tk (S (tcount h tk))) (fupd (trunner h) tk (Some t)) (tfsets h) (fupd (tpre h) tk p).
+Definition h_fset h tk := Ghost (clock h) (donelog h) (tsub h) (tinv h) (tpush h) (tret h) (texec h) (tcount h) (trunner h) (fupd (tfsets h) tk (S (tfsets h tk))) (tpre h).
+Definition ghost_of g (f : ghost -> ghost) := set_gh g (f (gh g)).
+Definition tick g := ghost_of g h_tick.
 
 Definition shcap (g : glob) : bool := (mk g =? 0) || (mk g =? 1).
 Definition timed (g : glob) : bool := (mk g =? 0) || (mk g =? 2).
@@ -121,7 +128,7 @@ Definition b2z (b : bool) : Z := if b then 1 else 0.
 Fixpoint hlookup (h : Z) (l : list (Z * bool)) : option bool :=
   match l with [] => None | (k, b) :: r => if k =? h then Some b else hlookup h r end.
 Fixpoint hremove (h : Z) (l : list (Z * bool)) : list (Z * bool) :=
-  match l with [] => [] | (k, b) :: r => if k =? h then hremove h r else (k, b) :: hremove h r end.
+  match l with [] => [] | (k, b) :: r => if k =? h then r else (k, b) :: hremove h r end.
 Fixpoint flookup (s : Z) (l : list (Z * nat)) : option nat :=
   match l with [] => None | (k, b) :: r => if k =? s then Some b else flookup s r end.
 Fixpoint fremove (s : Z) (l : list (Z * nat)) : list (Z * nat) :=
@@ -172,11 +179,11 @@ Definition after_drain (c : ctx) (lp : list nat) : pc :=
 Definition body_done (g : glob) (b : bctx) (thrown : bool) : pc :=
   match b with
   | BQ c tk r => T_unlock c tk r                                   (* packaged_task caught it *)
-  | BD tk => M_unlock tk (thrown && negb (tasync (tasks g tk)))    (* modify_async catches, modify_detach propagates *)
+  | BD tk => M_unlock tk (thrown && negb (tasync g tk))    (* modify_async catches, modify_detach propagates *)
   end.
 
 Definition new_task (g : glob) (t : nat) (fid : Z) (async : bool) : glob :=
-  set_tasks g (S (ntasks g)) (fupd (tasks g) (ntasks g) (Task fid async None FPending t (clock g) None None 0 None 0 0)).
+  ghost_of (add_task g fid async) (fun h => h_new h (ntasks g) t).
 
 (* the first step of an operation *)
 Definition start_op (t : nat) (g : glob) (l : loc) (o : op) : glob * loc * list ev :=
@@ -203,13 +210,13 @@ Definition start_op (t : nat) (g : glob) (l : loc) (o : op) : glob * loc * list 
   | FutureReady s =>
     match flookup s (futs l) with
     | None => stay (-1)
-    | Some tk => match tfut (tasks g tk) with FPending => stay 0 | _ => stay 1 end
+    | Some tk => match tfut g tk with FPending => stay 0 | _ => stay 1 end
     end
   | FutureGet s =>
     match flookup s (futs l) with
     | None => stay (-1)
     | Some tk =>
-      match tfut (tasks g tk) with
+      match tfut g tk with
       | FPending => stay (-2)
       | FVal v => (g, Loc (prog l) Idle (hand l) (fremove s (futs l)), [inv_ev o; ret v])
       | FExn => (g, Loc (prog l) Idle (hand l) (fremove s (futs l)), [inv_ev o; ret (-3)])
@@ -228,22 +235,22 @@ Definition tstep0 (t c : nat) (g : glob) (l : loc) : option (glob * loc * list e
   (* modify_detach / modify_async: std::unique_lock<M> lock(m_mutex, std::try_to_lock) *)
   | M_try tk =>
     if free_x g then Some (set_owner g (Some t), goto (DI_load (CDir tk)), [E K_TRYLOCK O_MTX 1])
-    else Some (g, goto (if tasync (tasks g tk) then Q_lockt tk else Q_lockl tk), [E K_TRYLOCK O_MTX 0])
+    else Some (g, goto (if tasync g tk then Q_lockt tk else Q_lockl tk), [E K_TRYLOCK O_MTX 0])
   (* queued path *)
   | Q_lockt tk =>
-    match tmtx (tasks g tk) with
-    | None => Some (upd_task g tk (fun x => t_set_mtx x (Some t)), goto (Q_unlockt tk), [E K_LOCK (O_TASK tk) 0])
+    match tmtx g tk with
+    | None => Some (set_tmtx g tk (Some t), goto (Q_unlockt tk), [E K_LOCK (O_TASK tk) 0])
     | Some _ => None
     end
-  | Q_unlockt tk => Some (upd_task g tk (fun x => t_set_mtx x None), goto (Q_lockl tk), [E K_UNLOCK (O_TASK tk) 0])
+  | Q_unlockt tk => Some (set_tmtx g tk None, goto (Q_lockl tk), [E K_UNLOCK (O_TASK tk) 0])
   | Q_lockl tk =>
     match lmtx g with
-    | None => Some (set_list g (Some t) (queue g ++ [tk]), goto (Q_unlockl tk), [E K_LOCK O_LIST 0])
+    | None => Some (ghost_of (set_list g (Some t) (queue g ++ [tk])) (fun h => h_push h tk), goto (Q_unlockl tk), [E K_LOCK O_LIST 0])
     | Some _ => None
     end
   | Q_unlockl tk => Some (set_list g None (queue g), goto (Q_store tk), [E K_UNLOCK O_LIST 0])
   | Q_store tk =>
-    Some (upd_task (set_flag g true) tk (fun x => t_set_ret x (clock g)), goto Idle, [ESC K_STORE O_FLAG 1; ret 0])
+    Some (ghost_of (set_flag g true) (fun h => h_ret h tk), goto Idle, [ESC K_STORE O_FLAG 1; ret 0])
   (* do_pending_writes() *)
   | P_load a => Some (g, goto (if flag g then P_try a else S_acq a), [ESC K_LOAD O_FLAG (b2z (flag g))])
   | P_try a =>
@@ -259,30 +266,30 @@ Definition tstep0 (t c : nat) (g : glob) (l : loc) : option (glob * loc * list e
     end
   | DI_unlockl c lp => Some (set_list g None (queue g), goto (after_drain c lp), [E K_UNLOCK O_LIST 0])
   | T_lock c tk r =>
-    match tmtx (tasks g tk) with
-    | None => Some (upd_task g tk (fun x => t_set_mtx x (Some t)), goto (F_call (BQ c tk r)), [E K_LOCK (O_TASK tk) 0])
+    match tmtx g tk with
+    | None => Some (set_tmtx g tk (Some t), goto (F_call (BQ c tk r)), [E K_LOCK (O_TASK tk) 0])
     | Some _ => None
     end
   (* a functor body: user_call(fid); x.write(x.read() * 16 + fid) *)
   | F_call b =>
     let tk := btask b in
     let k := calls g in
-    let g1 := set_calls (upd_task g tk (fun x => t_set_exec x t (clock g) (pay g))) (k + 1) in
+    let g1 := ghost_of (set_calls g (k + 1)) (fun h => h_exec h tk t (pay g)) in
     if existsb (Z.eqb k) (throws g)
-    then Some (upd_task g1 tk (fun x => t_set_fut x FExn), goto (body_done g b true),
-               [E K_CALL 0 (tfid (tasks g tk)); E K_THROW 0 k])
-    else Some (g1, goto (F_rdb b), [E K_CALL 0 (tfid (tasks g tk))])
+    then Some (ghost_of (set_tfut g1 tk FExn) (fun h => h_fset h tk), goto (body_done g b true),
+               [E K_CALL 0 (tfid g tk); E K_THROW 0 k])
+    else Some (g1, goto (F_rdb b), [E K_CALL 0 (tfid g tk)])
   | F_rdb b => let '(g', es) := rd_begin g in Some (g', goto (F_rde b), es)
   | F_rde b => let '(g', es) := rd_end g in Some (g', goto (F_wrb b (pay g)), es)
   | F_wrb b v => let '(g', es) := wr_begin g in Some (g', goto (F_wre b v), es)
   | F_wre b v =>
     let tk := btask b in
-    let nv := v * 16 + tfid (tasks g tk) in
+    let nv := v * 16 + tfid g tk in
     let '(g', es) := wr_end g nv in
-    Some (set_done (upd_task g' tk (fun x => t_set_fut x (FVal nv))) (donelog g ++ [tk]), goto (body_done g b false), es)
-  | T_unlock c tk r => Some (upd_task g tk (fun x => t_set_mtx x None), goto (after_drain c r), [E K_UNLOCK (O_TASK tk) 0])
+    Some (ghost_of (set_tfut g' tk (FVal nv)) (fun h => h_done (h_fset h tk) tk), goto (body_done g b false), es)
+  | T_unlock c tk r => Some (set_tmtx g tk None, goto (after_drain c r), [E K_UNLOCK (O_TASK tk) 0])
   | M_unlock tk thrown =>
-    Some (upd_task (set_owner g None) tk (fun x => t_set_ret x (clock g)), goto Idle,
+    Some (ghost_of (set_owner g None) (fun h => h_ret h tk), goto Idle,
           [E K_UNLOCK O_MTX 0; if thrown then E K_CATCH 0 0 else ret 0])
   | P_unlock a => Some (set_owner g None, goto (S_acq a), [E K_UNLOCK O_MTX 0])
   (* shared_handle(&m_obj, m_mutex) / try_lock_shared_handle* *)
@@ -315,9 +322,10 @@ Definition tstep (t c : nat) (g : glob) (l : loc) : option (glob * loc * list ev
 
 Definition fin (l : loc) : bool := match at_ l, prog l with Idle, [] => true | _, _ => false end.
 
-Definition no_task : task := Task 0 false None FPending 0 0 None None 0 None 0 0.
+Definition init_ghost : ghost :=
+  Ghost 0 [] (fun _ => O) (fun _ => O) (fun _ => None) (fun _ => None) (fun _ => None) (fun _ => O) (fun _ => None) (fun _ => O) (fun _ => 0).
 Definition init (m : Z) (thr : list Z) (progs : list (list op)) : sys glob loc :=
-  Sys (Glob m thr None 0 false None [] 0 0 false false 0 0 (fun _ => no_task) 0 [])
+  Sys (Glob m thr None 0 false None [] 0 0 false false 0 0 (fun _ => 0) (fun _ => false) (fun _ => None) (fun _ => FPending) init_ghost)
       (map (fun p => Loc p Idle [] []) progs).
 
 (* ---------- entry point of the correspondence check ---------- *)
